@@ -59,7 +59,9 @@ type Machine struct {
 	subs *Subscriptions
 
 	errInternal chan error
-	panicCaught atomic.Bool
+	// errInternalMx orders sends to errInternal with its closing.
+	errInternalMx sync.Mutex
+	panicCaught   atomic.Bool
 	// If true, logs will start with the machine's id (5 chars).
 	// Default: true.
 	logId atomic.Bool
@@ -491,7 +493,9 @@ func (m *Machine) doDispose(force bool) {
 
 	// dispose chans
 
+	m.errInternalMx.Lock()
 	close(m.errInternal)
+	m.errInternalMx.Unlock()
 	m.subs.dispose()
 	for _, mut := range m.queue {
 		if !mut.IsCheck {
@@ -2694,9 +2698,11 @@ func (m *Machine) ErrInternal() <-chan error {
 // errInternalSend passes [err] to the ErrInternal channel, unless it's full or
 // already closed by a disposal.
 func (m *Machine) errInternalSend(err error) {
-	defer func() {
-		_ = recover()
-	}()
+	m.errInternalMx.Lock()
+	defer m.errInternalMx.Unlock()
+	if m.disposed.Load() {
+		return
+	}
 
 	select {
 	case m.errInternal <- err:
